@@ -34,7 +34,10 @@ MIN_NONTRIVIAL = {"quick": 40, "thorough": 200}
 HOSTILE = ['plain', 'restart_run', 'my restart 7', 'rl = 2 test', 'it = 5', 'a->b',
            'np.arange(0, 8, 2)', '3D variables available', 'Checkpoints available at its',
            'with space', 'comma,name', "quote'name", 'bracket[0]', 'dash-name',
-           'output-0003', 'x === restart 4', 'overall', 'file_3.h5']
+           'output-0003', 'x === restart 4', 'overall', 'file_3.h5',
+           # the reader's own file-name vocabulary
+           'bbh_from_checkpoint', 'checkpoint.chkpt', 'run.it_8.h5', 'all_iterations',
+           'admbase-metric', 'x.xyz', 'rl=1 c=2']
 
 
 def cases(tier, sd):
@@ -156,7 +159,12 @@ def gen_cat_spec(seed):
             rs['checkpoints'] = sorted({int(v) for v in rng.choice(pool, int(rng.integers(1, 3)))})
             rs['chk_proc'] = bool(rng.random() < 0.4)
         restarts.append(rs)
-        start += max(length, 1) * bs
+        if length >= 2 and rng.random() < 0.25:
+            # the next restart recovers from an earlier checkpoint of this one
+            # (and may well stop before this one did)
+            start += int(rng.integers(1, length)) * bs
+        else:
+            start += max(length, 1) * bs
     spec['restarts'] = restarts
     if nlev >= 2 and rng.random() < 0.3:
         # 3D output restricted to the finer levels: no rl = 0 anywhere
